@@ -57,12 +57,14 @@ TSchema == /\ IsEvent("Schema") /\ GetSchema(Ev.p) /\ SchemaSeqOf(resp'.schema) 
 TExec == /\ IsEvent("Exec") /\ ExecFresh(Ev.p, Ev.e, Ev.gb) /\ resp'.res = Ev.res
          /\ ResMatches(w[Ev.p].rows, Ev.e, Ev.gb, Ev.res)
          /\ HashOK(Ev.p) /\ UNCHANGED dictOK
+\* the histogram handed to WithIndexMetrics has been called once per Execute since the handle was opened
+TIndexMetrics == IsEvent("IndexMetrics") /\ ix[Ev.p].open /\ Ev.n = ix[Ev.p].obs /\ UNCHANGED <<vars, hid, dictOK>>
 TNewQuery == IsEvent("NewQuery") /\ NewQuery(Ev.e, Ev.gb) /\ Len(qobj') = Ev.qid /\ UNCHANGED <<hid, dictOK>>
 TExecQ == /\ IsEvent("ExecQ") /\ Exec(Ev.p, Ev.qid) /\ resp'.res = Ev.res /\ Ev.unchanged
           /\ ResMatches(w[Ev.p].rows, qobj[Ev.qid].e, qobj[Ev.qid].gb, Ev.res)
           /\ HashOK(Ev.p) /\ UNCHANGED dictOK
 
-TNext == TReset \/ TDict \/ TPlant \/ TNewWriter \/ TDropWriter \/ TAddRows \/ TConcAddRows \/ TFlush \/ TOpen \/ TClose \/ TSchema \/ TExec \/ TNewQuery \/ TExecQ
+TNext == TReset \/ TDict \/ TPlant \/ TNewWriter \/ TDropWriter \/ TAddRows \/ TConcAddRows \/ TFlush \/ TOpen \/ TClose \/ TSchema \/ TExec \/ TIndexMetrics \/ TNewQuery \/ TExecQ
 TSpec == TInit /\ [][TNext]_tvars
 
 \* (the properties are conjuncts of the trace actions, so a wrong answer stops the trace at that
